@@ -40,6 +40,9 @@ def token_level(ctx, depth, cells):
                   what='exported cell is not duration marks + pitch + accidental + sorted set of signifiers (or the verbatim cell)')
 
 
+REST_EXT = ['/j', '\\j', ';', '(', ')', '{', '}', "'", '<', '>', 'q', 'qq', 'yy', 'y', 'X', '&(', '&)', '.', '(<']
+
+
 def extended_signifiers(ctx, depth):
     """notes with signifiers of the FULL alphabet of the grammar (C01.EXT_SIGS: slurs with elision marks and staff changes, ties, hidden ties,
     editorial marks `y` / `yy`, trills, mordents, grace marks ...), one before the duration and one after the pitch, in a two-spine score:
@@ -54,8 +57,15 @@ def extended_signifiers(ctx, depth):
     pairs = [(a, b) for a in sigs for b in sigs]
     combos += rng.sample(pairs, 400) if depth == 'quick' else pairs
     combos += [('yy', None), (None, 'yy'), ('yy', 'L'), ('y', 'yy'), ('TT', None), ('(', '&(')]
-    for a, b in combos:
-        base = rng.choice(['4c', '8dd', '16GG', '2e'])
+    combos = [(a, b, None) for a, b in combos]
+    # rests: every alternative of `restDecoration` (slurs, grace marks, staff changes, fermata, editorial marks, staccato, phrase marks, dots and the
+    # stem written on a rest, `/j` and `\\j` - round 6, C03_r6_1), singly and in pairs
+    rsigs = REST_EXT
+    combos += [(a, None, 'r') for a in rsigs] + [(None, a, 'r') for a in rsigs]
+    rpairs = [(a, b) for a in rsigs for b in rsigs]
+    combos += [(a, b, 'r') for a, b in (rng.sample(rpairs, 120) if depth == 'quick' else rpairs)]
+    for a, b, isrest in combos:
+        base = rng.choice(['4r', '2r', '8r']) if isrest else rng.choice(['4c', '8dd', '16GG', '2e'])
         cell = (a or '') + base + (b or '')
         other = rng.choice(['4C', '2r', '.', '8g#L'])
         text = '**kern\t**kern\n*clefG2\t*clefF4\n=1\t=1\n%s\t%s\n%s\t%s\n==\t==\n*-\t*-\n' % (cell, other, other, cell)
